@@ -63,8 +63,8 @@ fn judge(x: &str, with_check_cmd: bool, st: &mut Stats) -> Option<(String, Strin
         };
         match (&r, &got) {
             (Ok(text), Ok((printed, _))) => {
-                let ok = text.starts_with(&format!("Version: {x}\n"))
-                    && if printed == x { !text.contains("normalized") } else { text.ends_with(&format!("(normalized: {printed})")) };
+                // the statement fixes verdict and normal form, not the wording: the report must show the normal form
+                let ok = text.contains(printed.as_str());
                 if !ok {
                     return Some(("check_text_mismatch".into(), format!("check says {text:?} for input {x:?} with normal form {printed:?}")));
                 }
